@@ -805,7 +805,7 @@ func pureClasses(c pureCase) (bool, []string) {
 func TestC06Pure(t *testing.T) {
 	rapid.Check(t, func(t *rapid.T) {
 		c := genPure(t)
-		if !stats.Judge(t, "C06", "TestC06Pure", checkPure(c), c) {
+		if !judge(t, "TestC06Pure", checkPure(c), c) {
 			return
 		}
 		nt, cls := pureClasses(c)
